@@ -81,6 +81,101 @@ def corruptions(rng, src, spans, k):
     return out
 
 
+# ---- a complete statement followed by an over-indented line ------------------------------------------------------------------
+
+T_INPUTW = 0x4B
+OPENERS, CLOSERS = (20, 22, 24), (21, 23, 25)          # 【 （ {   /   】 ） }
+NO_BREAK_AFTER = (11, 26, 24, 20, 13, 14)              # ， 、 { 【 ： ？  — a line break after these does not end the statement
+OVER_BODIES = ['输出2', '（显示：9）', '令新设为1', '甲乙', '“文”', '9', '）', '为', '拦截异常：', '否则：', '如果真：', '每当真：', '以甲（乙）',
+               '如何f？', '+ 1', '】', '结束循环', '输出2\n输出3', '（显示：“跨\n行”）']
+
+
+def _line_of(text, pos):
+    """0-based physical line of offset pos (CR, LF, CRLF, LFCR are one line end each — the lexer's rule)"""
+    n, i = 0, 0
+    while i < pos:
+        c = text[i]
+        if c in '\r\n':
+            if i + 1 < len(text) and text[i + 1] in '\r\n' and text[i + 1] != c:
+                i += 1
+            n += 1
+        i += 1
+    return n
+
+
+def overindented(rng, src, spans, k):
+    """k variants of the VALID canonical program `src` (LF line ends, 4-space indentation, token spans from the real lexer): after a
+    physical line on which a statement is complete (no open bracket, last token not one of ， 、 { 【 ： ？, not a 输入 line) a line is
+    inserted that is indented deeper than the statement it follows (by one or two steps, or deeper than every line before it) — 4 spaces or TAB per step (TAB: the whole program is re-indented
+    with TABs), directly or after a blank / comment line.  The parser leaves every open block at such a
+    line (no block has that indentation) and `ParseAST` finds tokens left over: syntax error 20 positioned ON the inserted line at
+    its first token.  (Not started with a comma: `tryConsume` swallows one comma even when the statement is complete, and the first
+    LEFT-OVER token then is the one after it.)
+    Returns [(text, cursor of the expected error, 0-based physical line of the expected error)]."""
+    if not spans:
+        return []
+    line_start = [0] + [i + 1 for i, c in enumerate(src) if c == '\n']
+
+    def lno(pos):
+        lo, hi = 0, len(line_start) - 1
+        while lo < hi:
+            mid = (lo + hi + 1) // 2
+            if line_start[mid] <= pos:
+                lo = mid
+            else:
+                hi = mid - 1
+        return lo
+    nlines = len(line_start)
+    src_end = len(src)
+    # lines on which a token starts as the first thing of the line, with their indentation (in steps of 4 spaces)
+    indent = {}
+    for a, b, ty in spans:
+        ln = lno(a)
+        lead = src[line_start[ln]:a]
+        if ln not in indent and lead.strip(' ') == '' and len(lead) % 4 == 0:
+            indent[ln] = len(lead) // 4
+    cands = []
+    depth = 0
+    input_lines = set(lno(a) for a, b, ty in spans if ty == T_INPUTW)
+    for i, (a, b, ty) in enumerate(spans):
+        if ty in OPENERS:
+            depth += 1
+        elif ty in CLOSERS:
+            depth -= 1
+        endl = lno(max(a, b - 1))
+        nxt = spans[i + 1] if i + 1 < len(spans) else None
+        if nxt is not None and lno(nxt[0]) <= endl:
+            continue                       # not the last token on its line
+        if depth != 0 or ty in NO_BREAK_AFTER or endl in input_lines:
+            continue
+        if nxt is not None and nxt[2] in CLOSERS:
+            continue
+        cands.append((endl, indent[max(l for l in indent if l <= endl)], max(v for l, v in indent.items() if l <= endl)))
+    out = []
+    for _ in range(k):
+        if not cands:
+            break
+        endl, cur, deepest = rng.choice(cands)
+        tab = rng.random() < 0.5
+        unit = '\t' if tab else '    '
+        text = src
+        if tab:
+            ls = src.split('\n')
+            for ln, v in indent.items():
+                ls[ln] = '\t' * v + ls[ln][4 * v:]
+            text = '\n'.join(ls)
+        ls = text.split('\n')
+        # deeper than the statement it follows (no open block has that indentation), sometimes deeper than every line so far
+        steps = rng.choice([cur + 1, cur + 1, cur + 2, deepest + 1])
+        between = rng.choice([[], [], [], [''], ['注：说明'], [unit * steps + '// x'], ['/* 多\n行 */']])
+        body = rng.choice(OVER_BODIES)
+        new_ls = ls[:endl + 1] + between + [unit * steps + body] + ls[endl + 1:]
+        res = '\n'.join(new_ls)
+        cursor = len('\n'.join(ls[:endl + 1] + between)) + 1 + len(unit * steps)
+        out.append((res, cursor, _line_of(res, cursor)))
+    return out
+
+
 def truncations(src):
     return [src[:i] for i in range(len(src) + 1)]
 
